@@ -249,7 +249,9 @@ def _cg_run(S, c, form, shift=None):
                 x, k = S.CGLS(op, b, x0, maxit, CG_TOL, shift).solve()
             else:
                 x, k = S.PCGLS(op, b, x0, args["P"], maxit, CG_TOL, shift).solve()
-    return np.asarray(x, dtype=float), int(k), calls, _changed(before, args)
+    # single: the start vector was handed over in single precision AND the solver kept its iterate (and returns it) in that precision
+    single = lay["x0"] == "f32" and getattr(x, "dtype", None) == np.float32
+    return np.asarray(x, dtype=float), int(k), calls, _changed(before, args), (maxit + 2) * float(np.finfo(np.float32).eps) if single else 0.0
 
 
 def _expected_calls(c):
@@ -261,14 +263,15 @@ def _expected_calls(c):
     return exp
 
 
-def _calls_conform(calls, exp):
+def _calls_conform(calls, exp, tol=None):
     """first index at which the recorded calls depart from the expected ones (None if the prefix conforms)"""
+    tol = CG_CMP if tol is None else tol
     for i, (flag, v) in enumerate(exp):
         if i >= len(calls):
             return i, "missing call"
         if calls[i][0] != flag:
             return i, "flag %r instead of %r" % (calls[i][0], flag)
-        if not _close(calls[i][1], v, CG_CMP):
+        if not _close(calls[i][1], v, tol):
             return i, "vector differs"
     return None
 
@@ -290,7 +293,7 @@ def check_cg(ctx, S, c, sibling=None):
         ctx.case(("cg", solver, c["A"], c["b"], c["x0"], c["shift"], c["P"], form) + ((_lay_tag(lay),) if islay else ()),
                  nontrivial=K >= 1, facet=("lay/cg/" if islay else "cg/") + solver + "/" + form)
         try:
-            x, k, calls, changed = _cg_run(S, c, form)
+            x, k, calls, changed, single = _cg_run(S, c, form)
         except Exception as e:
             from cuqiverif.core import MachineryError
             if isinstance(e, MachineryError):
@@ -307,18 +310,24 @@ def check_cg(ctx, S, c, sibling=None):
         for a in changed:
             bad.append(("mutates/" + a, "solve() changed the argument %r it was given (shape / strides / dtype / flags / bytes before and "
                                         "after the call differ)" % a, None, None))
-        if not _close(x, xsol, CG_CMP):
+        # A float32 START VECTOR makes CGLS / PCGLS keep (numpy's in-place `x += ...`) and return their iterate in single precision:
+        # such a point is compared at single precision - (maxit + 2) eps32, one rounding of the stored iterate per update - and the
+        # upper bound on the iteration count is not asserted (the stopping rule tol = 1e-10 is below single precision).
+        cmp_tol = max(CG_CMP, single)
+        if single:
+            ctx.observations["cg_single_precision_runs"] = ctx.observations.get("cg_single_precision_runs", 0) + 1
+        if not _close(x, xsol, cmp_tol):
             bad.append(("solution", "returned point is not the solution of the (shifted, preconditioned) normal equations "
                                     "/ the minimum-norm correction of x0" + (" (arguments in the layouts %s)" % _lay_tag(lay) if islay else ""),
                         xsol, x))
-        if k > n + 1:
+        if k > n + 1 and not single:
             bad.append(("itercount", "more than n (+1) iterations for an n-dimensional problem (exact termination after <= n)",
                         "<= %d" % (n + 1), k))
         if c["status"] == "converged" and K >= 1 and k < K:
             bad.append(("itercount", "stopped before the normal residual vanished", ">= %d" % K, k))
         if form == "function":
             exp = _expected_calls(c)
-            dep = _calls_conform(calls, exp)
+            dep = _calls_conform(calls, exp, cmp_tol)
             if dep is not None:
                 i, why = dep
                 bad.append(("calls", "operator application #%d (%s, iteration %d) departs from the spec's recurrence: %s"
@@ -1580,6 +1589,39 @@ def _vacuity(ctx, cases):
     ctx.observe("seq_reassigned_operands", {k: sorted(v) for k, v in seen.items()})
 
 
+def _vacuity_layouts(ctx, cases):
+    """every layout of every argument must have been emitted for every solver, and the integer / single-precision START VECTORS of the
+    proximal-gradient solver and of LM (the solvers that accept them) must have produced points that were compared"""
+    from cuqiverif.core import MachineryError
+    seen = {}
+    for c in cases:
+        lay = c.get("lay")
+        if not lay or c["kind"] not in ("cg", "lay"):
+            continue
+        sv = c["solver"] if c["kind"] == "cg" or c["solver"] != "wrap" else c["wrapper"]
+        for a in ("A", "b", "x0"):
+            seen.setdefault((sv, a), set()).add(lay[a])
+    vec = {"f64", "int", "f32", "view", "rev", "ro", "list"}
+    need = {(sv, a): (vec | {"fortran"} if a == "A" else vec) for sv in ("cgls", "pcgls", "fista") for a in ("A", "b", "x0")}
+    need.update({(sv, "x0"): vec for sv in ("lm", "minimize", "maximize", "LS", "L_BFGS_B")})
+    need[("prox", "x0")] = vec | {"col", "row", "scalar"}
+    need[("prox", "b")] = {"f64", "int", "f32", "ro", "list", "view"}
+    for k, want in need.items():
+        if not want <= seen.get(k, set()):
+            raise MachineryError("Solvers emitted no case with the argument %s of %s stored as %s" % (k[1], k[0], sorted(want - seen.get(k, set()))))
+    ctx.observe("layouts_emitted", {"%s.%s" % k: sorted(v) for k, v in sorted(seen.items())})
+    fista_int = [c for c in cases if c["kind"] == "lay" and c["solver"] == "fista" and c["lay"]["x0"] == "int"
+                 and any(q[1] != 1 for q in c["xs"])]
+    if not fista_int:
+        raise MachineryError("no proximal-gradient problem with an integer start vector and a NON-integer minimiser was emitted: a "
+                             "truncating iterate buffer could not show")
+    if not ctx.violations:
+        ret = ctx.observations.get("layout_returned", {})
+        for sv in ("fista", "lm", "cgls", "pcgls", "minimize", "maximize", "LS", "L_BFGS_B"):
+            if ret.get(sv, 0) == 0:
+                raise MachineryError("no layout case of %s returned a point: the layout facet would be vacuous" % sv)
+
+
 def _sort_key(c):
     return json.dumps(c, sort_keys=True)
 
@@ -1590,7 +1632,8 @@ def run(ctx):
     import concurrent.futures, os
     S = _solver_mod()
     devs = (("PcglsIgnoresShift", "NormalEquations"), ("MaximizeDropsSign", "WrapRelation"),
-            ("StaleCachedOperand", "SeqCurrentOperands"), ("DefaultsLeakBetweenCalls", "CallsIndependent"))
+            ("StaleCachedOperand", "SeqCurrentOperands"), ("DefaultsLeakBetweenCalls", "CallsIndependent"),
+            ("IterateKeepsStartDtype", "LayoutIndependent"))
     wd = lambda label: os.path.join(_tlc.WORK, "Solvers-c16-%s-%d" % (label, os.getpid()))
     # the (small) deviation runs are started together with the main run: three JVM starts in sequence cost minutes on a loaded machine
     pool = concurrent.futures.ThreadPoolExecutor(max_workers=len(devs))
@@ -1611,7 +1654,7 @@ def run(ctx):
         ctx.model_must_hold(res, "Solvers")
         cases = sorted(res.cases, key=_sort_key)
         kinds = set(c["kind"] for c in cases)
-        if kinds != {"cg", "cgill", "prox", "kkt", "lm", "wrap", "seq", "proc"}:
+        if kinds != {"cg", "cgill", "prox", "kkt", "lm", "wrap", "seq", "proc", "lay"}:
             raise MachineryError("Solvers emitted kinds %r" % sorted(kinds))
         # named deviations: the invariants that decide the property must fail when the deviation is switched on
         for dev, inv in devs:
@@ -1635,24 +1678,29 @@ def run(ctx):
         raise MachineryError("kind cgill: the spec's recurrence run in floating point needs more than n iterations (and n iterations "
                              "leave an error far above the tolerance) for only %d of %d instances: the facet would be vacuous" %
                              (ill.get("need_more_than_n_iterations", 0), ill.get("instances", 0)))
+    _vacuity_layouts(ctx, cases)
+    ex = [c for c in cases if c["kind"] == "lay" and c["solver"] == "fista" and c["lay"]["x0"] == "int"]
+    ctx.sample({"case": ex[len(ex) // 2]}, limit=9)
     for k in ("seq", "proc", "cgill", "cg", "prox", "kkt", "lm", "wrap"):
         ex = [c for c in cases if c["kind"] == k]
         c = ex[len(ex) // 2]
         if k == "seq":
             ex = [c for c in ex if c["fam"] == "fista" and any(e["act"] == "set" and e["field"] == "A" for e in c["events"])]
             c = ex[len(ex) // 2]
-        ctx.sample({"case": c if k != "lm" else {kk: c[kk] for kk in ("kind", "fam", "B", "c", "a", "d", "stat")}}, limit=8)
+        ctx.sample({"case": c if k != "lm" else {kk: c[kk] for kk in ("kind", "fam", "B", "c", "a", "d", "stat")}}, limit=9)
     inf_box = [c for c in cases if c["kind"] == "kkt" and c["h"] == "box" and ("Inf" in c["up"] or "-Inf" in c["lo"])]
     if not inf_box or not any(c["kind"] == "prox" and c["op"] == "box" and ("Inf" in c["up"] or "-Inf" in c["lo"]) for c in cases):
         raise MachineryError("Solvers emitted no box with an infinite bound (prox / kkt): the one-sided facet would be vacuous")
-    ctx.sample({"case": inf_box[len(inf_box) // 2]}, limit=8)
+    ctx.sample({"case": inf_box[len(inf_box) // 2]}, limit=10)
     ctx.rule = ("one case per problem emitted by TLC from Solvers.tla (cg: A, b, x0, shift, P with the exact rational vectors of every "
                 "operator application and the exact solution; prox: lattice input with exact output, boxes with finite / infinite / "
                 "default bounds in every documented way of passing them; kkt: A, b, x*, g, regulariser (incl. one-sided boxes), "
                 "steps; lm: family with its stationary points and starts; wrap: wrapper x method x objective x documented keyword "
                 "arguments; seq: every behaviour of the spec's Solve / SetOp machine of length SeqLen with at most SeqSets "
                 "reassignments of one public operand, one comparison per Solve of the behaviour; cgill: constructed ill-conditioned "
-                "problem with its exact solution; proc: every order of a list of calls, one comparison per call and process); distinct = problem x "
+                "problem with its exact solution; proc: every order of a list of calls, one comparison per call and process; lay / cg with a "
+                "field lay: problem x layout of A x layout of b x layout of x0 - each argument's layout varied alone, all three the same, a few "
+                "mixed triples, thorough: every pair); distinct = problem x "
                 "call-site / operator form / solver variant (seq: behaviour prefix x form); trivial (not counted) = cg start that "
                 "already solves the normal equations, prox input that is its own image, proximal-gradient run started at the fixed "
                 "point, LM start that is stationary, the first Solve of a sequence on an object nothing was reassigned on")
@@ -1667,6 +1715,10 @@ def run(ctx):
                         "sizes bounded by the cfg; cg problems with iterates beyond MagBound compared through their exact solution",
                         "cgill: numpy.linalg.eigvalsh for the smallest eigenvalue in the tolerance 10 tol |s0| / lambda_min (what the stopping "
                         "rule |s_k| <= tol |s_0| guarantees); exact iterates are not followed (beyond 32-bit rationals): postcondition form",
+                        "layouts: a layout stores the spec's exact numbers (int only for integer data, float32 only for exactly representable "
+                        "data); a solver that RAISES for a layout asserts nothing (observation layout_refused); a float32 start vector makes "
+                        "CGLS / PCGLS iterate and return in single precision (numpy in-place update): compared at (maxit + 2) eps32, iteration "
+                        "count not bounded above; function form: the user's callable multiplies with the laid-out matrix",
                         "proc: every order of a list runs in its own python process (sys.executable -m cuqiverif.props.c16); SciPy called "
                         "directly in the same process with the documented defaults is the reference"]
 
